@@ -164,6 +164,7 @@ class Scheduler:
       {'kind': 'uniform', 'p': float}
       {'kind': 'hot', 'p_hot': float, 'p_cold': float, 'hot': [substr, ...]}
       {'kind': 'pct', 'd': int, 'est_steps': int}
+      {'kind': 'hotpct', 'points': [int, ...], 'hot': [substr, ...]}   (switch at the n-th hot-region line events, elsewhere with probability p_cold)
       {'kind': 'replay', 'switches': [[step, tid], ...]}
       {'kind': 'serial'}              (never pre-empt; run tasks in tid order)
     ``rng``: random.Random used by the exploring strategies only.
@@ -198,10 +199,12 @@ class Scheduler:
         self.on_step = None         # optional callback(step) -> None (crash fault)
         if self.kind == 'replay':
             self._replay = [(x[0], x[1], x[2] if len(x) > 2 else 0) for x in strategy['switches']]
-        if self.kind == 'hot':
+        if self.kind in ('hot', 'hotpct'):
             self._hot = tuple(strategy['hot'])
         else:
             self._hot = ()
+        self._hot_events = 0
+        self._hot_points = set(strategy.get('points', ())) if self.kind == 'hotpct' else ()
         self._pct_points = None
 
     # ------------------------------------------------------------------ API
@@ -446,6 +449,19 @@ class Scheduler:
                     best = x
             if best is not me:
                 target = best
+        elif kind == 'hotpct':
+            # switch exactly at the chosen ordinal numbers of hot-region line events, nowhere else
+            fire = False
+            if c[2]:
+                self._hot_events += 1
+                fire = self._hot_events in self._hot_points
+            if not fire:
+                pc = self.strategy.get('p_cold', 0.0)
+                fire = pc > 0.0 and self.rng.random() < pc
+            if fire:
+                cands = self._runnable(exclude=me)
+                if cands:
+                    target = cands[0] if len(cands) == 1 else self.rng.choice(cands)
         else:
             if kind == 'hot':
                 p = self.strategy['p_hot'] if c[2] else self.strategy['p_cold']
